@@ -19,6 +19,9 @@ func propC11(c *Ctx, r *Report) {
 	r.Clauses = append(r.Clauses, "block-scoped local names in dependency ordering (E7): the function of the parser's dependency collector that walks the statements of a block gives them a set of local names of its own, so a name declared inside a block does not hide a module-scope declaration after the block (acceptance must not depend on declaration order)")
 	c.runDepBlockScope(r, "scope.depblock")
 	r.floor("scope.depblock", 1)
+	r.Clauses = append(r.Clauses, "swizzle width (E20): every lowerer function that maps a swizzle letter to a component with the raw letter mapper also compares the component with the vector's size, so `v.z` on a vec2 is rejected on every path (value and reference context)")
+	c.runSwizzleChecked(r, "swizzle.checked")
+	r.floor("swizzle.checked", 2)
 	r.Clauses = append(r.Clauses, "token characters (E20): in the lexer's punctuation scanner the characters consumed on the path to every addToken(K) spell exactly the WGSL token K (a delimiter or semicolon can only be diagnosed as missing if the tokens around it are cut at the right places)")
 	c.runLexerTokenChars(r, "lex.tokenchars")
 	r.floor("lex.tokenchars", 40)
@@ -29,6 +32,7 @@ func propC11(c *Ctx, r *Report) {
 	c.runDefAfterInit(r, "scope.defafterinit", inPkgs("wgsl/internal/lower", parserRel))
 	r.floor("scope.definitions", 12)
 	r.Clauses = append(r.Clauses, "scope restore completeness (E5/E7): every string-keyed map of the lowerer into which a declaration function stores a binding under the key it hands to scopeSet is written (assigned or deleted) by popScope - a binding map that block exit does not restore lets a block-local name outlive its block and keeps an inner declaration from shadowing an outer one")
+	r.Clauses = append(r.Clauses, "shadowing hygiene (E7): the scope-entry function that saves a shadowed binding's per-name attributes (constant, var, pointer-let, abstract initialiser ...) also clears each of them for the new binding, so no attribute of an outer declaration leaks onto an inner declaration of the same name")
 	c.runScopeRestore(r, "scope.restore", "wgsl/internal/lower", "Lowerer", "scopeSet", "popScope", map[string]string{"localDecls": "unused-variable warning bookkeeping (declaration spans): read only by the warning pass, never by name resolution"})
 	r.floor("scope.bindingmaps", 4)
 }
